@@ -50,6 +50,9 @@ type ReqSpec struct {
 type Case struct {
 	World World   `json:"world"`
 	Req   ReqSpec `json:"req"`
+	// Before: requests served earlier in the same process (history.go); the property makes the answer
+	// to Req independent of them.
+	Before []Step `json:"before,omitempty"`
 }
 
 func (q *ReqSpec) components() []string {
